@@ -488,6 +488,15 @@ class CFGBuilder:
         cls = None
         if isinstance(exc, ast.Call):
             cls = dotted(exc.func)
+            # `raise self.__builder(...)`: a private method of the same class whose returns all construct one exception class
+            fn = exc.func
+            if isinstance(fn, ast.Attribute) and isinstance(fn.value, ast.Name) and fn.value.id in ("self", "cls") and self.func.cls is not None:
+                m = self.func.cls.methods.get(fn.attr)
+                if m is not None and not isinstance(m.node, ast.Lambda):
+                    built = {dotted(r.value.func) for r in ast.walk(m.node) if isinstance(r, ast.Return) and isinstance(r.value, ast.Call)}
+                    plain = [r for r in ast.walk(m.node) if isinstance(r, ast.Return) and not isinstance(r.value, ast.Call)]
+                    if len(built) == 1 and not plain and None not in built:
+                        cls = next(iter(built))
         elif isinstance(exc, (ast.Name, ast.Attribute)):
             cls = dotted(exc)
             # `raise exc` where exc is a variable: unknown class
